@@ -61,6 +61,9 @@ func (e Entry) Canon(times bool) string {
 	}
 	if times {
 		fmt.Fprintf(&sb, " m%d", e.Mod)
+		if e.Prev != "" {
+			fmt.Fprintf(&sb, " prev=%s", e.Prev)
+		}
 	}
 	if e.Deleted {
 		sb.WriteString(" DEL")
@@ -217,11 +220,8 @@ func WalkNodes(objs map[string][]byte, l Layout, link *string, bf uint) (*TreeDu
 			t.Problems = append(t.Problems, fmt.Sprintf("node %s: %d keys, %d links", name, len(n.Key), len(n.Link)))
 			return
 		}
-		if len(n.Key) == 0 {
-			t.Problems = append(t.Problems, fmt.Sprintf("node %s is empty", name))
-		}
-		if bf > 0 && uint(len(n.Key)) > bf {
-			t.Problems = append(t.Problems, fmt.Sprintf("node %s has %d keys > branch factor %d", name, len(n.Key), bf))
+		if len(n.Key) == 0 && len(n.Link) == 0 {
+			t.Problems = append(t.Problems, fmt.Sprintf("node %s has neither keys nor links", name))
 		}
 		for i := range n.Key {
 			if len(n.Link) > 0 && n.Link[i] != "" {
